@@ -22,6 +22,7 @@ import (
 	promv1 "github.com/prometheus/client_model/go"
 	"google.golang.org/protobuf/encoding/prototext"
 	"google.golang.org/protobuf/proto"
+	"google.golang.org/protobuf/runtime/protoimpl"
 	"google.golang.org/protobuf/types/known/durationpb"
 	"google.golang.org/protobuf/types/known/structpb"
 	"google.golang.org/protobuf/types/known/timestamppb"
@@ -40,6 +41,12 @@ func init() {
 			s.Yield(where)
 		}
 	}
+	// scheduling points inside the protobuf-go runtime (before its size-cache atomics)
+	protoimpl.VerifSetYield(func(where string) {
+		if s := active; s != nil {
+			s.Yield(where)
+		}
+	})
 }
 
 type kind struct {
